@@ -148,7 +148,7 @@ Definition wake_step (m : kmem) (t : nat) (q : nat) (cnt wc : Z) (kp : wakepos) 
   | KPNext h =>
       match nnext m h with
       | S _ => (m, WCont wc (KPSetHead h (nnext m h)))
-      | O => if 0 <? cnt then (m, WCont wc (KPSpin (if inm then SPNext ST_RUNNING else SPRead)))
+      | O => if 0 <? cnt then (if inm then (m, wloop cnt wc) else (m, WCont wc (KPSpin SPRead)))
              else (m, wloop cnt wc)
       end
   | KPSetHead h nx => (set_qhead m q nx, WCont wc (KPData h nx))
@@ -318,7 +318,8 @@ Proof.
   - reflexivity.
   - destruct (nnext m h) eqn:En; cbn; [|reflexivity].
     destruct (0 <? cnt) eqn:Ec; cbn.
-    + destruct (in_maint r) eqn:Em; cbn; [reflexivity|]. reflexivity.
+    + destruct (in_maint r) eqn:Em; cbn; [|reflexivity].
+      unfold wloop, kloop. destruct (wc <? cnt); cbn; [reflexivity|]. ret_destr. reflexivity.
     + unfold wloop, kloop. destruct (wc <? cnt); cbn; [reflexivity|]. ret_destr. reflexivity.
   - reflexivity.
   - reflexivity.
